@@ -37,6 +37,11 @@ CHECKS = {
         text="TLA+ model of the patcher's per-file procedure with the fresh bowl, model-checked over every valid rsync op stream (anything the abstract op-stream layer accepts, not only what today's differ emits) for all small (olds,new): whole-file-op detection, range sizing from the old container, Prepare/truncate. Generated build pairs (size classes around block multiples, renames, duplications, aligned prefixes/suffixes, shared blocks, edits, inserts, deletes, swaps, weak-hash twins, > 4 MiB runs, empty files, symlinks, empty dirs) x compression settings go through the real WritePatch, an independent patch decoder with digest facts, and the real patcher + fresh bowl; TLC evaluates framing, reconstruction and entry-by-entry tree equality on every recorded application.",
         note="SHA-256 digests stand for byte equality; modes are not compared; pairs are sampled from VERIF_SEED (the quantifier is infinite).",
         technique="TLA+ model checking (TLC) + trace validation of real diff/apply executions against the TLA+ patch-stream property"),
+    "C08": dict(
+        level="model_checking", ref="DESIGN.md §4 C08",
+        text="The literal TLA+ transcription of the differ is model-checked under idealised entropy (every old byte a distinct symbol, every introduced byte fresh) over ALL edit scripts of up to 2 edits (overwrite/insert/delete, every offset and length) on multi-block files: fresh <= introduced + (2k+2)*BS, fresh + reused = |new|, identical => no data. The real WritePatch runs on builds of high-entropy content related by logged edit scripts, renames and duplications; the patch is decoded independently and TLC checks the per-file bound, zero fresh bytes for content-equal files, and that the differ's counters equal the sums over the patch and add up to the new build's size.",
+        note="bound claimed for high-entropy content only; the model-to-code link is the zero-drift result of ./check C11.",
+        technique="TLA+ model checking (TLC) over all small edit scripts + trace validation of real patches against the TLA+ accounting property"),
 }
 
 NOT_YET = "check not built yet in this round (planned: DESIGN.md §4); not a claim that the technique cannot apply"
